@@ -5,8 +5,8 @@ buffered sample, and grouping by entry neither loses nor duplicates any. -/
 namespace Conv
 open ConvSpec
 
-theorem flushBuffer_proj (maps : List MapAdd) (q : List (Nat × MapAdd)) (us : List USample) :
-    (flushBuffer maps q us).map (fun o => (o.1, o.2.t, o.2.weight)) = us.map (fun u => (u.th, u.t, 1)) := by
+theorem flushBuffer_proj (pm maps : List MapAdd) (q : List (Nat × MapAdd)) (us : List USample) :
+    (flushBuffer pm maps q us).map (fun o => (o.1, o.2.t, o.2.weight)) = us.map (fun u => (u.th, u.t, 1)) := by
   induction us generalizing maps q with
   | nil => rfl
   | cons u rest ih =>
@@ -15,7 +15,7 @@ theorem flushBuffer_proj (maps : List MapAdd) (q : List (Nat × MapAdd)) (us : L
     rw [ih]
 
 theorem flatMap_filter_nonempty {γ} (f : USample → γ) (procs : List (Nat × ProcC)) :
-    ((procs.filter (fun p => !p.2.samples.isEmpty)).map (fun p => (p.2.samples, p.2.mapq))).flatMap
+    ((procs.filter (fun p => !p.2.samples.isEmpty)).map (fun p => (p.2.samples, p.2.mapq, p.2.pid))).flatMap
         (fun b => b.1.map f) = (bufP procs).map f := by
   induction procs with
   | nil => rfl
@@ -30,10 +30,10 @@ theorem flushAll_proj (s : St) :
     (flushAll s).map (fun o => (o.1, o.2.t, o.2.weight)) = (buffered s).map (fun u => (u.th, u.t, 1)) := by
   unfold flushAll
   rw [List.map_flatMap]
-  have : (fun b : List USample × List (Nat × MapAdd) =>
-      (flushBuffer [] b.2 b.1).map (fun o => (o.1, o.2.t, o.2.weight))) =
+  have : (fun b : List USample × List (Nat × MapAdd) × Nat =>
+      (flushBuffer (perfMapTable s.cfg b.2.2) [] b.2.1 b.1).map (fun o => (o.1, o.2.t, o.2.weight))) =
       (fun b => b.1.map (fun u => (u.th, u.t, 1))) := by
-    funext b; exact flushBuffer_proj [] b.2 b.1
+    funext b; exact flushBuffer_proj (perfMapTable s.cfg b.2.2) [] b.2.1 b.1
   rw [this]
   unfold allBuffers buffered
   rw [List.flatMap_append, List.map_append, flatMap_filter_nonempty]
